@@ -223,7 +223,11 @@ def _cases(shard, tier):
                 for target in range(lo, hi + 1):
                     n = target - n1 + 1
                     if n >= 1:
-                        yield _case(short, label, plant, se, cfg=cfg, index=index, lib=H.library(n, offset=target))
+                        c = _case(short, label, plant, se, cfg=cfg, index=index, lib=H.library(n, offset=target))
+                        yield c
+                        # the same name through the serialiser called directly (the default route is str(record),
+                        # which is what the writers use)
+                        yield dict(c, route='asFastq')
 
 
 # ---------------------------------------------------------------------------------------------- execution
@@ -259,7 +263,7 @@ def _encode(case):
         import sys
         site = _site(sys.exc_info()[2])
         # raised while the record is serialised (asFastq or any helper it calls), not necessarily in asFastq's own frame
-        if isinstance(ex, ValueError) and 'asFastq' in [f.name for f in traceback.extract_tb(sys.exc_info()[2])]:
+        if isinstance(ex, ValueError) and {'asFastq', '__str__', '__repr__'} & {f.name for f in traceback.extract_tb(sys.exc_info()[2])}:
             return 'refused', None       # the bulk strategy serialises inside demultiplex: a loud refusal
         return 'exception', (f'encode:{site}:exception:{type(ex).__name__}', repr(ex))
     lines = []
@@ -268,7 +272,10 @@ def _encode(case):
             lines.append(r.split('\n')[0])
         else:
             try:
-                lines.append(r.asFastq().split('\n')[0])
+                # 'str': what the FASTQ writers put in the file (FastqHandle.write writes str(record)); 'asFastq': the
+                # documented serialiser called directly. Both must refuse or round-trip.
+                text = str(r) if case.get('route', 'str') == 'str' else r.asFastq()
+                lines.append(text.split('\n')[0])
             except ValueError as ex:
                 lines.append(ex)
             except Exception as ex:      # noqa
